@@ -1,12 +1,18 @@
 (* C01 -- generated moves are exactly the legal moves.  PARTIAL.
-   The full statement is `movegen_exact_statement` below; it is NOT proved (DESIGN section 6, C01: lemmas L5-L11 are
-   open).  What is proved and listed here: the second half of the statement (NoDup: no move is emitted twice, and every
+   The full statement is `movegen_exact_statement` below; it is NOT proved as a whole.  Proved: the KING-SAFETY half of
+   soundness for every block of the generator (C01_no_generated_move_leaves_the_king_attacked: pin sets, check mask,
+   king steps, castling incl. the pinned Chess960 rook, en passant incl. the two-pawn horizontal discovery -- proofs/
+   PinFacts.v, LegalPin.v, LegalKing.v, LegalCastle.v, LegalEp.v, GenLegal.v), on every position satisfying the invariant
+   of Closure.v and the en-passant consistency `ep_ok_b` (without which the statement is FALSE: C01_ep_consistency_is_needed).
+   Open: that every generated move is pseudo-legal by the rules' own move lists, and completeness (nothing missing).
+   Also proved and listed here: the second half of the statement (NoDup: no move is emitted twice, and every
    promotion comes once per promotion piece and only on the last rank -- proofs/GenNoDup.v) for every position passing
    `good_pos_b`, and the closed lemmas the first half rests on: the slider lookups (C10), the one-step shifts without
    wrap-around, the pawn attack sets.  Until the refinement is closed, "equals the rules" is decided
    by the correspondence run against the executable specification spec/Rules.v (a test, not a proof). *)
-From Coq Require Import NArith ZArith List Bool Permutation.
-From Rawr Require Import Consts Bits Magic Position MoveGen MakeStages Rules Abs MagicFacts ShiftFacts AbsFacts MakeFacts GenSane GenNoDup NoKingCapture.
+From Coq Require Import NArith ZArith List Bool Permutation String.
+From Rawr Require Import Consts Bits Magic Position MoveGen MakeMove MakeStages Fen Uci Rules Abs MagicFacts ShiftFacts AbsFacts MakeFacts GenSane GenNoDup NoKingCapture
+                         Closure EpRetro LegalKing LegalCastle LegalEp LegalBlocks GenLegal.
 Import ListNotations.
 Local Open Scope N_scope.
 
@@ -84,12 +90,56 @@ Theorem C01_no_generated_move_captures_a_king : forall p g, Good p -> CastleGood
   m_to (gen_mv g) <> lsb (N.land (kings p) (c_them p)).
 Proof. exact no_king_capture. Qed.
 
+(* ---- the king-safety half of soundness: on a position satisfying the invariant (`Inv0`: well-formed boards, one king a
+   side, castling rights backed by rook and king, the side not to move not in check; executable form `inv_b`) whose
+   en-passant state is consistent with the double push just played (`ep_ok_b`), NO move the generator emits leaves the
+   mover's own king attacked -- for both instances of makemove.  Proof: the legality test of the successor is carried back
+   into the mover's frame (LegalBase.v); `gi_allowed` is the checking ray / the checker / empty (PinFacts.v: allowed_slider,
+   allowed_leaper), the pin sets are sound and complete for "only man between king and enemy slider" (pins_sound,
+   pins_complete), a man leaving a king line sideways lands on no king line (RayGeo.v sweeps); per block LegalPin.v,
+   LegalBlocks.v, LegalKing.v, LegalCastle.v, LegalEp.v. *)
+Theorem C01_no_generated_move_leaves_the_king_attacked : forall u p m,
+  Inv0 p -> ep_ok_b p = true -> In m (legal_moves p) -> in_check_them (makemove u p m) = false.
+Proof. exact gen_legal. Qed.
+Theorem C01_king_steps_are_safe : forall u p g, Inv0 p -> In g (king_steps p) -> in_check_them (makemove u p (gen_mv g)) = false.
+Proof. exact king_step_legal. Qed.
+Theorem C01_castling_is_safe : forall u p g, Inv0 p -> In g (blk_castle_k p) \/ In g (blk_castle_q p) ->
+  in_check_them (makemove u p (gen_mv g)) = false.
+Proof. intros u p g I [H|H]; [exact (castle_k_legal u p g I H)|exact (castle_q_legal u p g I H)]. Qed.
+Theorem C01_en_passant_is_safe : forall u p g, Inv0 p -> ep_ok_b p = true -> In g (blk_ep p) ->
+  in_check_them (makemove u p (gen_mv g)) = false.
+Proof. exact ep_legal. Qed.
+(* the en-passant consistency is kept by every generated move and by the null move, so it holds on every position reached
+   by play from a position satisfying it *)
+Theorem C01_ep_consistency_is_kept : forall u p m, Inv0 p -> In m (legal_moves p) -> ep_ok_b (makemove u p m) = true.
+Proof. exact ep_ok_step. Qed.
+(* ... and it is needed: a position the FEN parser accepts (it passes `invs_b`) whose en-passant square cannot have arisen
+   by play, on which the generator emits e5xd6 e.p. and the mover's king on b3 is then attacked by the bishop on f7.
+   (The same input trips the engine's own validity assertion after the move in the checked build; such positions are
+   outside the domain D of the property.) *)
+Definition retro_illegal_b : bool :=
+  match set_fen false false (lit "8/5b2/8/3pP3/8/1K6/8/7k w - d6 0 1"%string) with
+  | Some p => invs_b p && negb (ep_ok_b p) && existsb (fun m => in_check_them (makemove true p m)) (legal_moves p)
+  | None => false
+  end.
+Theorem C01_ep_consistency_is_needed : exists p m,
+  invs_b p = true /\ ep_ok_b p = false /\ In m (legal_moves p) /\ in_check_them (makemove true p m) = true.
+Proof.
+  assert (H : retro_illegal_b = true) by (vm_compute; reflexivity). unfold retro_illegal_b in H.
+  destruct (set_fen false false (lit "8/5b2/8/3pP3/8/1K6/8/7k w - d6 0 1"%string)) as [p|]; [|discriminate].
+  apply andb_true_iff in H. destruct H as [H H3]. apply andb_true_iff in H. destruct H as [H1 H2].
+  apply existsb_exists in H3. destruct H3 as (m & Hm & Hc). apply negb_true_iff in H2.
+  exists p, m. repeat split; assumption.
+Qed.
+Example C01_premises_startpos : inv_b startpos = true /\ ep_ok_b startpos = true.
+Proof. split; vm_compute; reflexivity. Qed.
+
 (* non-vacuity of the statement's premise and an instance of its conclusion, by computation: the start position,
    "kiwipete", a Chess960 position with a pinned castling rook, an en-passant capture that would expose the king *)
 Definition instance_ok (p : Position) : bool :=
   in_D p && forallb (fun m => existsb (mv_eqb m) (spec_legal p)) (legal_moves p)
   && forallb (fun m => existsb (mv_eqb m) (legal_moves p)) (spec_legal p)
-  && Nat.eqb (length (legal_moves p)) (length (spec_legal p)).
+  && Nat.eqb (List.length (legal_moves p)) (List.length (spec_legal p)).
 Example C01_instance_startpos : instance_ok startpos = true.
 Proof. vm_compute. reflexivity. Qed.
 
@@ -110,3 +160,9 @@ Print Assumptions C01_promotions_all_four.
 Print Assumptions C01_pieces_never_promote.
 Print Assumptions C01_generated_capture_attacks_its_target.
 Print Assumptions C01_no_generated_move_captures_a_king.
+Print Assumptions C01_no_generated_move_leaves_the_king_attacked.
+Print Assumptions C01_king_steps_are_safe.
+Print Assumptions C01_castling_is_safe.
+Print Assumptions C01_en_passant_is_safe.
+Print Assumptions C01_ep_consistency_is_kept.
+Print Assumptions C01_ep_consistency_is_needed.
